@@ -32,10 +32,23 @@ def execute(args: argparse.Namespace):
     obj_name = Name.from_str(args.obj)
     v, id_name, key_name, cert_name = infer_obj_name(obj_name)
 
+    if v <= 1:
+        try:
+            iden = kc[id_name]
+        except KeyError as e:
+            print('Requested identity does not exist.')
+            print(f'KeyError: {e}')
+            return -1
     if v <= 0:
         kc.del_identity(id_name)
         print(f'Deleted identity {Name.to_str(id_name)}')
     elif v == 1:
+        try:
+            _ = iden[key_name]
+        except KeyError as e:
+            print('Requested key does not exist.')
+            print(f'KeyError: {e}')
+            return -1
         kc.del_key(key_name)
         print(f'Deleted key {Name.to_str(key_name)}')
     else:
